@@ -2532,21 +2532,125 @@ pub open spec fn kept_bucket<T>(m0: Map<String, RouteRef<T>>, m1: Map<String, Ro
 }
 pub open spec fn dropped_bucket<T>(m0: Map<String, RouteRef<T>>, m1: Map<String, RouteRef<T>>, ids: Set<String>) -> bool { kept_bucket(m0, m1, ids) && m1.len() == 0 }
 pub open spec fn static_has<T>(s: Map<String, IdMap<T>>, p: String, i: String, x: RouteRef<T>) -> bool { s.contains_key(p) && s[p]@.contains_key(i) && s[p]@[i] == x }
-// R8 outline, ASSUMED contract (closure assigning a captured local): the statement
-//     self.static_rules.retain(|_, matcher| { if removed.is_some() { return true; } removed = matcher.remove(id); !matcher.is_empty() });
-// removes the entry with that id from the first path bucket that has one (and drops the bucket if it becomes empty); everything else is unchanged
-#[verifier::external_body]
-pub fn outl_static_retain_remove<T>(m: &mut HashMap<String, IdMap<T>>, id: &str, removed: &mut Option<RouteRef<T>>)
-    requires *old(removed) is None,
-    ensures match *final(removed) {
-        Some(x) => exists|p0: String, i0: String| i0@ == id@ && #[trigger] static_has(old(m)@, p0, i0, x)
-            && forall|p: String, i: String, y: RouteRef<T>| #[trigger] static_has(final(m)@, p, i, y) <==> static_has(old(m)@, p, i, y) && !(p == p0 && i == i0),
-        None => (forall|p: String, i: String, y: RouteRef<T>| #[trigger] static_has(final(m)@, p, i, y) <==> static_has(old(m)@, p, i, y))
-            && forall|p: String, i: String| old(m)@.contains_key(p) && #[trigger] old(m)@[p]@.contains_key(i) ==> i@ != id@,
-    },
+// the literal-path buckets: the removal closure is verified in place (R13). One step: once a route was found the bucket is left alone; else the
+// entry with that id (if any) is taken out of the bucket and handed over; an emptied bucket is dropped
+pub open spec fn has_idkey<T>(v: IdMap<T>, id: Seq<char>) -> bool { exists|i0: String| i0@ == id && v@.contains_key(i0) }
+pub open spec fn post_pq<T>(id: Seq<char>) -> spec_fn(String, IdMap<T>, IdMap<T>, Option<RouteRef<T>>, Option<RouteRef<T>>, bool) -> bool {
+    |k: String, v0: IdMap<T>, v1: IdMap<T>, s0: Option<RouteRef<T>>, s1: Option<RouteRef<T>>, b: bool|
+        (s0 is Some && v1 == v0 && s1 == s0 && b)
+        || (s0 is None && (!b ==> v1@.len() == 0) && (
+                (exists|i0: String| i0@ == id && #[trigger] v0@.contains_key(i0) && v1@ == v0@.remove(i0) && s1 == Some(v0@[i0]))
+                || (!has_idkey(v0, id) && v1@ == v0@ && s1 is None)))
+}
+pub open spec fn pq_seen<T>(m0: Map<String, IdMap<T>>, order: Seq<String>, n: int, id: Seq<char>) -> bool { exists|j: int| 0 <= j < n && has_idkey(m0[#[trigger] order[j]], id) }
+// state of the scan after n steps: nothing found yet and every bucket so far untouched; or found in bucket f (the first that has the id) and
+// only that bucket changed
+pub open spec fn pq_inv<T>(m0: Map<String, IdMap<T>>, order: Seq<String>, states: Seq<Option<RouteRef<T>>>, vals: Seq<IdMap<T>>, keeps: Seq<bool>, id: Seq<char>, n: int) -> bool {
+    if !pq_seen(m0, order, n, id) {
+        states[n] is None && forall|j: int| 0 <= j < n ==> (#[trigger] vals[j])@ == m0[order[j]]@ && (!keeps[j] ==> vals[j]@.len() == 0)
+    } else {
+        exists|f: int, i0: String| 0 <= f < n && i0@ == id && #[trigger] m0[order[f]]@.contains_key(i0) && states[n] == Some(m0[order[f]]@[i0])
+            && vals[f]@ == m0[order[f]]@.remove(i0) && (!keeps[f] ==> vals[f]@.len() == 0)
+            && forall|j: int| 0 <= j < n && j != f ==> (#[trigger] vals[j])@ == m0[order[j]]@ && (keeps[j] || vals[j]@.len() == 0) && !(j < f && has_idkey(m0[order[j]], id))
+    }
+}
+pub proof fn lemma_pq_inv<T>(m0: Map<String, IdMap<T>>, m1: Map<String, IdMap<T>>, s1: Option<RouteRef<T>>, id: Seq<char>, order: Seq<String>, states: Seq<Option<RouteRef<T>>>, vals: Seq<IdMap<T>>, keeps: Seq<bool>, n: int)
+    requires chain_w(m0, m1, None, s1, post_pq::<T>(id), order, states, vals, keeps), 0 <= n <= order.len(),
+    ensures pq_inv(m0, order, states, vals, keeps, id, n),
+    decreases n,
 {
-    /* verbatim: self.static_rules.retain(|_, matcher| { if removed.is_some() { return true; } removed = matcher.remove(id); !matcher.is_empty() }); */
-    unimplemented!()
+    axiom_string_ext();
+    if n > 0 {
+        lemma_pq_inv(m0, m1, s1, id, order, states, vals, keeps, n - 1);
+        let k = order[n - 1];
+        assert(post_pq::<T>(id)(order[n - 1], m0[order[n - 1]], vals[n - 1], states[n - 1], states[n - 1 + 1], keeps[n - 1]));
+        if !pq_seen(m0, order, n - 1, id) {
+            assert(states[n - 1] is None);
+            if has_idkey(m0[k], id) {
+                let i0 = choose|i0: String| i0@ == id && #[trigger] m0[k]@.contains_key(i0) && vals[n - 1]@ == m0[k]@.remove(i0) && states[n] == Some(m0[k]@[i0]);
+                assert(pq_seen(m0, order, n, id)) by { assert(has_idkey(m0[order[n - 1]], id)); }
+                assert(0 <= n - 1 < n && i0@ == id && m0[order[n - 1]]@.contains_key(i0) && states[n] == Some(m0[order[n - 1]]@[i0]) && vals[n - 1]@ == m0[order[n - 1]]@.remove(i0));
+                assert forall|j: int| 0 <= j < n && j != n - 1 implies (#[trigger] vals[j])@ == m0[order[j]]@ && (keeps[j] || vals[j]@.len() == 0) && !(j < n - 1 && has_idkey(m0[order[j]], id)) by {
+                    if has_idkey(m0[order[j]], id) { assert(pq_seen(m0, order, n - 1, id)); }
+                }
+            } else {
+                assert(!pq_seen(m0, order, n, id)) by { if pq_seen(m0, order, n, id) { let j = choose|j: int| 0 <= j < n && has_idkey(m0[#[trigger] order[j]], id); if j < n - 1 { assert(pq_seen(m0, order, n - 1, id)); } } }
+                assert forall|j: int| 0 <= j < n implies (#[trigger] vals[j])@ == m0[order[j]]@ && (!keeps[j] ==> vals[j]@.len() == 0) by {}
+            }
+        } else {
+            let (f, i0) = choose|f: int, i0: String| 0 <= f < n - 1 && i0@ == id && #[trigger] m0[order[f]]@.contains_key(i0) && states[n - 1] == Some(m0[order[f]]@[i0])
+                && vals[f]@ == m0[order[f]]@.remove(i0) && (!keeps[f] ==> vals[f]@.len() == 0)
+                && forall|j: int| 0 <= j < n - 1 && j != f ==> (#[trigger] vals[j])@ == m0[order[j]]@ && (keeps[j] || vals[j]@.len() == 0) && !(j < f && has_idkey(m0[order[j]], id));
+            assert(states[n - 1] is Some);
+            assert(vals[n - 1] == m0[k] && states[n] == states[n - 1] && keeps[n - 1]);
+            assert(pq_seen(m0, order, n, id)) by { let j = choose|j: int| 0 <= j < n - 1 && has_idkey(m0[#[trigger] order[j]], id); assert(0 <= j < n && has_idkey(m0[order[j]], id)); }
+            assert(0 <= f < n && i0@ == id && m0[order[f]]@.contains_key(i0) && states[n] == Some(m0[order[f]]@[i0]) && vals[f]@ == m0[order[f]]@.remove(i0) && (!keeps[f] ==> vals[f]@.len() == 0));
+            assert forall|j: int| 0 <= j < n && j != f implies (#[trigger] vals[j])@ == m0[order[j]]@ && (keeps[j] || vals[j]@.len() == 0) && !(j < f && has_idkey(m0[order[j]], id)) by {}
+        }
+    } else {
+        assert(!pq_seen(m0, order, 0, id));
+    }
+}
+// the summary the layer proof uses (formerly the ASSUMED contract of the outlined statement; now derived from the verified closure)
+pub open spec fn pq_some_goal<T>(m0: Map<String, IdMap<T>>, m1: Map<String, IdMap<T>>, id: Seq<char>, x: RouteRef<T>) -> bool {
+    exists|p0: String, i0: String| i0@ == id && #[trigger] static_has(m0, p0, i0, x)
+        && forall|p: String, i: String, y: RouteRef<T>| #[trigger] static_has(m1, p, i, y) <==> static_has(m0, p, i, y) && !(p == p0 && i == i0)
+}
+pub open spec fn pq_none_goal<T>(m0: Map<String, IdMap<T>>, m1: Map<String, IdMap<T>>, id: Seq<char>) -> bool {
+    (forall|p: String, i: String, y: RouteRef<T>| #[trigger] static_has(m1, p, i, y) <==> static_has(m0, p, i, y))
+        && forall|p: String, i: String| m0.contains_key(p) && #[trigger] m0[p]@.contains_key(i) ==> i@ != id
+}
+pub proof fn lemma_chain_pq<T>(m0: Map<String, IdMap<T>>, m1: Map<String, IdMap<T>>, s1: Option<RouteRef<T>>, id: Seq<char>)
+    requires chain(m0, m1, None, s1, post_pq::<T>(id)),
+    ensures s1 matches Some(x) ==> pq_some_goal(m0, m1, id, x), s1 is None ==> pq_none_goal(m0, m1, id),
+{
+    axiom_string_ext();
+    let post = post_pq::<T>(id);
+    let (order, states, vals, keeps) = choose|order: Seq<String>, states: Seq<Option<RouteRef<T>>>, vals: Seq<IdMap<T>>, keeps: Seq<bool>| chain_w(m0, m1, None, s1, post, order, states, vals, keeps);
+    let n = order.len() as int;
+    lemma_pq_inv(m0, m1, s1, id, order, states, vals, keeps, n);
+    assert(states[n] == s1);
+    assert forall|p: String| #[trigger] m1.contains_key(p) implies m0.contains_key(p) by {}
+    // index of a key in the visiting order
+    assert forall|p: String| m0.contains_key(p) implies exists|j: int| 0 <= j < n && #[trigger] order[j] == p by { assert(order.contains(p)); }
+    let goal_none = (forall|p: String, i: String, y: RouteRef<T>| #[trigger] static_has(m1, p, i, y) <==> static_has(m0, p, i, y)) && (forall|p: String, i: String| m0.contains_key(p) && #[trigger] m0[p]@.contains_key(i) ==> i@ != id);
+    if !pq_seen(m0, order, n, id) {
+        assert(s1 is None);
+        assert forall|p: String, i: String| m0.contains_key(p) && #[trigger] m0[p]@.contains_key(i) implies i@ != id by {
+            let j = choose|j: int| 0 <= j < n && #[trigger] order[j] == p; if i@ == id { assert(has_idkey(m0[order[j]], id)); assert(pq_seen(m0, order, n, id)); }
+        }
+        assert forall|p: String, i: String, y: RouteRef<T>| #[trigger] static_has(m1, p, i, y) <==> static_has(m0, p, i, y) by {
+            if !m0.contains_key(p) { assert(!m1.contains_key(p)); }
+            if m0.contains_key(p) {
+                let j = choose|j: int| 0 <= j < n && #[trigger] order[j] == p;
+                assert(vals[j]@ == m0[order[j]]@ && (!keeps[j] ==> vals[j]@.len() == 0));
+                if keeps[j] { assert(m1.contains_key(order[j]) && m1[order[j]] == vals[j]); } else { assert(!m1.contains_key(order[j])); if m0[p]@.contains_key(i) { assert(vals[j]@.contains_key(i)); assert(vals[j]@.len() > 0) by { if vals[j]@.len() == 0 { assert(vals[j]@.dom() =~= Set::<String>::empty()); } } } }
+            }
+        }
+        assert(s1 is None && goal_none); assert(pq_none_goal(m0, m1, id));
+    } else {
+        let (f, i0) = choose|f: int, i0: String| 0 <= f < n && i0@ == id && #[trigger] m0[order[f]]@.contains_key(i0) && states[n] == Some(m0[order[f]]@[i0])
+            && vals[f]@ == m0[order[f]]@.remove(i0) && (!keeps[f] ==> vals[f]@.len() == 0)
+            && forall|j: int| 0 <= j < n && j != f ==> (#[trigger] vals[j])@ == m0[order[j]]@ && (keeps[j] || vals[j]@.len() == 0) && !(j < f && has_idkey(m0[order[j]], id));
+        let p0 = order[f]; let x = m0[p0]@[i0];
+        assert(order.contains(p0)); assert(m0.contains_key(p0));
+        assert(s1 == Some(x) && static_has(m0, p0, i0, x));
+        assert forall|p: String, i: String, y: RouteRef<T>| #[trigger] static_has(m1, p, i, y) <==> static_has(m0, p, i, y) && !(p == p0 && i == i0) by {
+            if !m0.contains_key(p) { assert(!m1.contains_key(p)); }
+            if m0.contains_key(p) {
+                let j = choose|j: int| 0 <= j < n && #[trigger] order[j] == p;
+                if j == f {
+                    if keeps[j] { assert(m1.contains_key(order[j]) && m1[order[j]] == vals[j]); } else { assert(!m1.contains_key(order[j])); if m0[p]@.contains_key(i) && i != i0 { assert(vals[j]@.contains_key(i)); assert(vals[j]@.len() > 0) by { if vals[j]@.len() == 0 { assert(vals[j]@.dom() =~= Set::<String>::empty()); } } } }
+                } else {
+                    assert(p != p0) by { if p == p0 { assert(order[j] == order[f]); } }
+                    assert(vals[j]@ == m0[order[j]]@);
+                    if keeps[j] { assert(m1.contains_key(order[j]) && m1[order[j]] == vals[j]); } else { assert(!m1.contains_key(order[j])); assert(vals[j]@.len() == 0); if m0[p]@.contains_key(i) { assert(vals[j]@.contains_key(i)); assert(vals[j]@.dom() =~= Set::<String>::empty()); } }
+                }
+            }
+        }
+        assert(exists|pa: String, ia: String| ia@ == id && #[trigger] static_has(m0, pa, ia, x) && forall|p: String, i: String, y: RouteRef<T>| #[trigger] static_has(m1, p, i, y) <==> static_has(m0, p, i, y) && !(p == pa && i == ia)) by { assert(static_has(m0, p0, i0, x)); }
+        assert(pq_some_goal(m0, m1, id, x));
+    }
 }
 pub proof fn lemma_pq_sub<T>(o: PathAndQueryMatcher<T>, n: PathAndQueryMatcher<T>)
     requires o.wf(),
@@ -2664,7 +2768,14 @@ impl<T> PathAndQueryMatcher<T> {
     //@@ fn src/router/request_matcher/path_and_query.rs :: impl <T>PathAndQueryMatcher<T> / fn remove -> r
     //@| requires old(self).wf(),
     //@| ensures removed_rel(*old(self), *final(self), id@, r),
-    //@| outline `self.static_rules.retain(|_, matcher| { if removed.is_some() { return true; } removed = matcher.remove(id); !matcher.is_empty() });` => `outl_static_retain_remove(&mut self.static_rules, id, &mut removed);`
+    //@| statelift `self.static_rules.retain(|_, matcher|` var `removed` helper `vf_retain_st` header `|_k: &String, matcher: &mut IdMap<T>, vf_st: &mut Option<RouteRef<T>>| -> (b: bool) ensures post_pq::<T>(id@)(*_k, *old(matcher), *final(matcher), *old(vf_st), *final(vf_st), b)` ghost `Ghost(post_pq::<T>(id@))`
+    //@| before `self.static_rules.retain(`: let ghost vf_m0 = self.static_rules@;
+    //@| before `removed = matcher.remove(id);`: broadcast use group_hash_axioms; broadcast use axiom_string_key_model; broadcast use axiom_borrow_str_removed; broadcast use axiom_borrow_str_contains; broadcast use axiom_borrow_str_maps; let ghost vf_v0 = matcher@; proof { axiom_string_ext(); }
+    //@| after `removed = matcher.remove(id);`: proof { if (*vf_st) is Some { let i0 = choose|i0: String| i0@ == id@ && vf_v0.contains_key(i0) && vf_v0[i0] == (*vf_st).unwrap(); assert(matcher@ == vf_v0.remove(i0)); } else { assert(!has_idkey(*old(matcher), id@)); } } proof { assert((*old(vf_st)) is None); assert(matcher@ == vf_v0.remove(choose|i0: String| i0@ == id@ && vf_v0.contains_key(i0)) || matcher@ == vf_v0); assert((exists|i0: String| i0@ == id@ && #[trigger] vf_v0.contains_key(i0) && matcher@ == vf_v0.remove(i0) && (*vf_st) == Some(vf_v0[i0])) || (!has_idkey(*old(matcher), id@) && matcher@ == vf_v0 && (*vf_st) is None)); }
+    //@| before `if removed.is_some() {`#$: proof { lemma_chain_pq(vf_m0, self.static_rules@, removed, id@);
+    //@|     assert(self.regex_tree_rule.tmap2() == t0);
+    //@|     if removed is Some { let x = removed.unwrap(); let (p0, i0) = choose|p0: String, i0: String| i0@ == id@ && #[trigger] static_has(s0, p0, i0, x) && forall|p: String, i: String, y: RouteRef<T>| #[trigger] static_has(self.static_rules@, p, i, y) <==> static_has(s0, p, i, y) && !(p == p0 && i == i0); assert(old(self).in_static(x)); assert(old(self).sholds(x)); assert(old(self).holds(x)); }
+    //@| }
     //@| entry broadcast use group_hash_axioms; broadcast use axiom_string_key_model;
     //@|     let ghost s0 = self.static_rules@; let ghost t0 = self.regex_tree_rule.tmap2();
     //@|     proof { axiom_string_ext(); lemma_pq_wf(*self); }
@@ -2685,10 +2796,6 @@ impl<T> PathAndQueryMatcher<T> {
     //@|         if self.in_static(x) && rid(*x) == id@ { assert(old(self).sholds(x) && old(self).sholds(route)); assert(x == route); let (p, i) = choose|p: String, i: String| s0.contains_key(p) && #[trigger] s0[p]@.contains_key(i) && s0[p]@[i] == x; assert(rpath(*x) == PathKey::Static(p@)); assert(rpath(*route) == PathKey::Dynamic(pp)); }
     //@|     }
     //@|     lemma_pq_removed(*old(self), *self, id@, Some(route));
-    //@| }
-    //@| before `if removed.is_some() {`#1: proof {
-    //@|     assert(self.regex_tree_rule.tmap2() == t0);
-    //@|     if removed is Some { let x = removed.unwrap(); let (p0, i0) = choose|p0: String, i0: String| i0@ == id@ && #[trigger] static_has(s0, p0, i0, x) && forall|p: String, i: String, y: RouteRef<T>| #[trigger] static_has(self.static_rules@, p, i, y) <==> static_has(s0, p, i, y) && !(p == p0 && i == i0); assert(old(self).in_static(x)); assert(old(self).sholds(x)); assert(old(self).holds(x)); }
     //@| }
     //@| exit proof {
     //@|     let s2 = self.static_rules@;
